@@ -7,7 +7,8 @@ Exit status
   0  every harness the solver decided held (failed checks that match an *open*
      entry of known_findings.json are printed as KNOWN-FINDING lines and do not
      fail the run); harnesses that hit the time / memory cap are printed as
-     INCONCLUSIVE lines, listed in the evidence and not counted as held
+     INCONCLUSIVE lines, listed in the evidence and not counted as held (at most
+     two harnesses or a fifth of the tier, whichever is larger; beyond that: exit 2)
   1  at least one violation that is not a listed known finding (one line
      "VIOLATION property=<id> replay=<path>" each), confirmed by native replay
   2  the machinery needs attention: no harness was decided at all, engine error,
@@ -643,7 +644,12 @@ def main():
     soft = [(n, w) for (n, w) in inconclusive if w.startswith("timeout after") or w.startswith("out of memory")]
     hard = [(n, w) for (n, w) in inconclusive if (n, w) not in soft]
     held = [r for r in decided if not r["failed"] and not r["covers_unsat"] and r["status"] == "SUCCESSFUL"]
-    if hard or not held:
+    # ... and unless a large part of the tier was not explored: a change to the tree that makes
+    # many harnesses run out of time is not a pass (seed C15-n2 did exactly that)
+    too_many = len(soft) > max(2, len(results) // 5)
+    if hard or not held or too_many:
+        if too_many:
+            log("INCONCLUSIVE: %d of %d harnesses hit the time / memory cap" % (len(soft), len(results)))
         sys.exit(2)
     log("%s: held on %d of %d harnesses (%d obligations) within the stated bounds%s, %.0fs" % (
         prop, len(held), len(results), n_checks,
